@@ -95,6 +95,27 @@ class StartTaskHandler(StabilizeHandler[StartTask]):
                         )
                 return
 
+            # A stage's own tasks start only once all its before stages are done
+            # (ContinueParentStage pushes StartTask then). A StartTask that finds a
+            # before stage unfinished is a duplicate left over from the previous loop
+            # iteration (one is pushed per ContinueParentStage): honouring it would run
+            # the task ahead of the re-armed before stages and strand the stage later.
+            if any(not s.status.is_complete for s in stage.before_stages()):
+                logger.debug(
+                    "Ignoring stale StartTask for %s (%s) - before stages of %s are not finished",
+                    task_model.name,
+                    task_model.id,
+                    stage.name,
+                )
+                if message.message_id:
+                    with self.repository.transaction(self.queue) as txn:
+                        txn.mark_message_processed(
+                            message_id=message.message_id,
+                            handler_type="StartTask",
+                            execution_id=message.execution_id,
+                        )
+                return
+
             # Idempotency check - only start tasks that are NOT_STARTED
             if task_model.status != WorkflowStatus.NOT_STARTED:
                 logger.debug(
